@@ -1,0 +1,82 @@
+//go:build verif
+
+// Contracts for the deductive verifier in /verif (govc). Comment-only.
+
+package metricsdata
+
+//@ # ---- merge preparation (C03, C04): the target slot range covers the slot range of every input block; for a
+//@ # rollup it is the pair of coarse slots that contain the first and the last source slot ----------------------
+//@ uf blockStart(ref) uint16
+//@ uf blockEnd(ref) uint16
+//@ func NewReader
+//@   assume
+//@   modifies nothing
+//@   fresh
+//@   ensures result1 == nil ==> (result0 != nil && typeis(result0, "*metricReader"))
+//@ end
+//@ func MetricReader.GetTimeRange
+//@   modifies nothing
+//@   ensures result.Start == blockStart(self) && result.End == blockEnd(self)
+//@ end
+//@ func MetricReader.GetSeriesIDs
+//@   modifies nothing
+//@   ensures result != nil
+//@ end
+//@ # a metric block carries at least one field
+//@ func MetricReader.GetFields
+//@   modifies nothing
+//@   ensures len(result) > 0
+//@ end
+//@ extern func github.com/lindb/roaring.Bitmap.Or
+//@   modifies self.has, self.card
+//@ end
+//@ extern func github.com/lindb/roaring.New
+//@   fresh
+//@   ensures result != nil
+//@ end
+//@ func github.com/lindb/lindb/series/field.Metas.GetFromID
+//@   assume
+//@   modifies nothing
+//@   ensures result1 ==> len(fms) > 0
+//@ end
+//@ func newDataScanner
+//@   assume
+//@   modifies nothing
+//@   fresh
+//@   ensures result1 == nil ==> (result0 != nil && cast(result0.reader, "MetricReader") == r)
+//@ end
+//@ extern func sort.Slice
+//@   modifies cast(x, "github.com/lindb/lindb/series/field.Metas")[*] when typeis(x, "github.com/lindb/lindb/series/field.Metas")
+//@ end
+//@ uf rollupTs(ref, uint16) int64
+//@ uf rollupSlot(ref, int64) uint16
+//@ func github.com/lindb/lindb/kv.Rollup.GetTimestamp
+//@   norefine
+//@   modifies nothing
+//@   ensures result == rollupTs(self, slot)
+//@ end
+//@ func github.com/lindb/lindb/kv.Rollup.CalcSlot
+//@   norefine
+//@   modifies nothing
+//@   ensures result == rollupSlot(self, timestamp)
+//@ end
+//@ func github.com/lindb/lindb/kv.Rollup.IntervalRatio
+//@   norefine
+//@   modifies nothing
+//@ end
+//@ func github.com/lindb/lindb/kv.Rollup.BaseSlot
+//@   norefine
+//@   modifies nothing
+//@ end
+//@ func merger.prepare
+//@   prop C03 C04
+//@   requires len(metricBlocks) > 0
+//@   modifies *
+//@   ensures[source_range_covers_every_input_block] result1 == nil ==> (result0 != nil && len(result0.scanners) == len(metricBlocks) && forall(i, 0, len(metricBlocks), result0.scanners[i] != nil && result0.sourceRange.Start <= blockStart(cast(result0.scanners[i].reader, "MetricReader")) && blockEnd(cast(result0.scanners[i].reader, "MetricReader")) <= result0.sourceRange.End))
+//@   ensures[compaction_keeps_the_slot_range] (result1 == nil && m.rollup == nil) ==> (result0.targetRange.Start == result0.sourceRange.Start && result0.targetRange.End == result0.sourceRange.End && result0.ratio == 1)
+//@   ensures[rollup_range_is_the_coarse_slots_of_the_first_and_last_source_slot] (result1 == nil && m.rollup != nil) ==> (result0.targetRange.Start == rollupSlot(m.rollup, rollupTs(m.rollup, result0.sourceRange.Start)) && result0.targetRange.End == rollupSlot(m.rollup, rollupTs(m.rollup, result0.sourceRange.End)))
+//@   loop 1 invariant rangeindex >= -1 && rangeindex < len(metricBlocks) && ctx != nil && len(ctx.scanners) == len(metricBlocks) && ctx.seriesIDs != nil && (rangeindex >= 0 ==> len(ctx.targetFields) > 0)
+//@   loop 1 invariant forall(i, 0, rangeindex + 1, ctx.scanners[i] != nil && ctx.sourceRange.Start <= blockStart(cast(ctx.scanners[i].reader, "MetricReader")) && blockEnd(cast(ctx.scanners[i].reader, "MetricReader")) <= ctx.sourceRange.End)
+//@   loop 2 invariant ctx != nil && len(ctx.scanners) == len(metricBlocks) && ctx.seriesIDs != nil && (rangeindex >= 0 ==> len(ctx.targetFields) > 0) && ctx.sourceRange.Start <= blockStart(reader) && blockEnd(reader) <= ctx.sourceRange.End
+//@   loop 2 invariant forall(i, 0, idx, ctx.scanners[i] != nil && ctx.sourceRange.Start <= blockStart(cast(ctx.scanners[i].reader, "MetricReader")) && blockEnd(cast(ctx.scanners[i].reader, "MetricReader")) <= ctx.sourceRange.End)
+//@ end
